@@ -22,14 +22,14 @@ C = dict(
              cap={"quick": 50, "thorough": 100000}),
         # every history of depth 4: sampled (quick) / large sample (thorough)
         dict(name="h4s", module="TaskLifecycle", cfg="TaskLifecycle_Plan4S.cfg", params=S, workers=8,
-             cap={"quick": 90, "thorough": 6000}),
+             cap={"quick": 90, "thorough": 4000}),
         dict(name="h4d", module="TaskLifecycle", cfg="TaskLifecycle_Plan4D.cfg", params=D, workers=8, tiers=["thorough"],
-             cap={"thorough": 4000}),
+             cap={"thorough": 2500}),
         # random deep histories
         dict(name="sims", module="TaskLifecycle", cfg="TaskLifecycle_PlanSimS.cfg", params=S,
-             simulate={"quick": 30, "thorough": 1500}, depth=12),
+             simulate={"quick": 30, "thorough": 1000}, depth=12, cap={"quick": 100, "thorough": 1500}),
         dict(name="simd", module="TaskLifecycle", cfg="TaskLifecycle_PlanSimD.cfg", params=D,
-             simulate={"quick": 20, "thorough": 1000}, depth=12),
+             simulate={"quick": 20, "thorough": 700}, depth=12, cap={"quick": 70, "thorough": 1000}),
     ],
     directed="plans/C11.jsonl",
     trace=("TaskLifecycle_Trace", "TaskLifecycle_Trace.cfg"),
